@@ -16,6 +16,7 @@ sys.dont_write_bytecode = True
 
 from sa.model import AnalysisError, Repo  # noqa: E402
 from sa.report import Ctx, finish  # noqa: E402
+from sa.wiring import Misbehaves  # noqa: E402
 
 
 def run_check(pid: str, tier: str, seed: int, root: str = None, only: str = None, quiet: bool = False,
@@ -24,7 +25,14 @@ def run_check(pid: str, tier: str, seed: int, root: str = None, only: str = None
         repo = Repo(root)
         ctx = Ctx(pid, tier, seed, repo, only=only, quiet=quiet)
         mod = importlib.import_module(f"rules.{pid.lower()}")
-        mod.run(ctx)
+        try:
+            mod.run(ctx)
+        except Misbehaves as e:
+            # the analysed composition provably raises for some inputs of the analysed domain (an exact finite-function result,
+            # not an analysis limit) at a place where the rule had no handler of its own: a finding, not a crash of the checker
+            what, _, detail = str(e).partition(": ")
+            ctx.rule("code/no-raise", "the analysed encode / decode / check composition raises for no input of the analysed domain")
+            ctx.ob("code/no-raise", what, False, detail or str(e))
         if tier == "thorough" and selftest and not only:
             from selftest import corpus
             corpus.run_selftests(ctx)
